@@ -547,6 +547,22 @@ def bankruptcy (c : Ctx) (available : Int) : Res BkrOut := do
     .ok { slots := c.a.slots.set i (ofBal c.b.key o.bal), books := o.bank, insuranceTokens := o.coveredUp,
           opState := if o.kill then 3 else c.b.opState, flags := c.a.flags ||| ACCOUNT_DISABLED.toNat }
 
+/-! ### `lending_account_end_flashloan`, the whole instruction
+
+the authority signs (regenerated table) → not via CPI → the account is neither disabled, in receivership nor frozen → the
+in-flash-loan flag is cleared → the initial-margin check runs on the WHOLE portfolio as stored, with the flag already cleared
+(so it cannot be skipped). Result: the account's flag word. -/
+
+def endFlashloan (c : Ctx) (stackHeight : Nat) : Res Nat := do
+  runChecks c.env (checks .LendingAccountEndFlashloan)
+  Bank.chk (stackHeight == 1) E.NotAllowedInCPI
+  Bank.chk (!(flag c ACCOUNT_DISABLED)) E.AccountDisabled
+  Bank.chk (!(flag c ACCOUNT_IN_RECEIVERSHIP)) E.ForbiddenIx
+  Bank.chk (!(flag c ACCOUNT_FROZEN)) E.AccountFrozen
+  let ps ← portfolio c c.a.slots c.b.books
+  Risk.checkInitHealth ps
+  .ok (c.a.flags &&& (Nat.xor ACCOUNT_IN_FLASHLOAN.toNat (2 ^ 64 - 1)))
+
 /-! ### the protocol as a state machine over whole instructions
 
 Any number of margin accounts and banks of one group; a step is one of the five whole instructions by any signer on any
